@@ -280,8 +280,8 @@ def shard(idx: int, nshards: int, seed: int, n_free: int, n_conf: int, n_cli: in
 
 def run(ctx: RunContext) -> int:
     t0 = time.time()
-    n_free = ctx.scale(110, 2500)
-    n_conf = ctx.scale(90, 2500)
+    n_free = ctx.scale(200, 2500)
+    n_conf = ctx.scale(160, 2500)
     n_cli = 0 if ctx.quick else 6
     res = run_shards(shard, [(i, 16, derive_seed(ctx.seed, i), n_free, n_conf, n_cli, ctx.seed, not ctx.quick) for i in range(16)])
     res.notes.append(f"the conflict table ({len(G.all_conflict_cases())} kind x placement x order x spelling x position x value cases) was enumerated "
